@@ -25,8 +25,58 @@ FILTERS = [
 _IX: dict[str, IX.Index] = {}
 
 
+HIST_FILES = {
+    "h.zo": """# H page #ht
+
+- 240401 240104#H1 stamped earlier w0
+  * pack the  bags
+  * due:: next friday
+  continued line
+o P1 240105#H2 plain todo w0
+- 240106#H3 untouched multi
+  * keep me
+""",
+}
+
+
+def _hist_index():
+    """An index that went through a real history: created on day 0, two notes
+    edited and the page reindexed on day 1.  The reference for what the emitted
+    text must compile back to is the notes in the FILES (recompiled), not the
+    index rows."""
+    import datetime as _dt
+
+    from mc.core import dirstate as D
+    from mc.core import zdir as Z
+
+    zd = Z.make_zdir(HIST_FILES, "c12h")
+    r = Z.db_create(zd, DAY)
+    if not Z.cli_ok(r):
+        raise H.HarnessError("c12 history setup: create failed " + r.err[-300:])
+    t = (zd / "h.zo").read_text()
+    (zd / "h.zo").write_text(t.replace("stamped earlier w0", "stamped earlier w1").replace("plain todo w0", "plain todo w1"))
+    day1 = DAY + _dt.timedelta(days=1)
+    r = Z.db_reindex(zd, day1)
+    if not Z.cli_ok(r):
+        raise H.HarnessError("c12 history setup: reindex failed " + r.err[-300:])
+    H.freeze(day1)
+    notes = []
+    for rel, pg in D.compiled_pages(zd).items():
+        notes.extend(pg["notes"])
+    H.freeze(DAY)
+    ix = IX.Index.__new__(IX.Index)
+    ix.day = day1
+    ix.zdir = zd
+    ix.raw = {"notes": notes, "pages": {}, "problems": []}
+    ix.universe = Q.Universe(notes)
+    ix._sess = {}
+    return ix
+
+
 def _index(name):
     ix = _IX.get(name)
+    if ix is None and name == "HIST":
+        ix = _IX[name] = _hist_index()
     if ix is None:
         files = dict(C.K1) if name == "K1" else dict(C.K4)
         ix = _IX[name] = IX.Index(files, DAY, tag="c12p")
@@ -38,6 +88,9 @@ def cases(ctx):
     if ctx.quick:
         orders = [[k] for k in ORDER_KEYS] + [list(p) for p in it.permutations(ORDER_KEYS, 2)][ctx.seed % 5::5]
     out = []
+    for o in ([None] + [[k] for k in ORDER_KEYS]):
+        out.append(["pipe", "HIST", 0, o, "direct"])
+    out.append(["pipe", "HIST", 0, ["alpha"], "zoq"])
     for name in ("K1", "K4"):
         for fi in range(len(FILTERS)):
             for o in orders:
